@@ -20,7 +20,9 @@ thread_local! {
 /// The Config used by the hyperlink ops: the one made by `ansi.cfg_env` (real environment: cwd,
 /// GIT_PREFIX, hostname) if any, else the driver's current one.
 fn config() -> &'static Config {
-    ENV_CONFIG.with(|c| *c.borrow()).unwrap_or_else(super::config)
+    ENV_CONFIG
+        .with(|c| *c.borrow())
+        .unwrap_or_else(super::config)
 }
 
 fn make_env_config(args: &[String]) -> &'static Config {
@@ -58,7 +60,11 @@ fn dec_colour(s: &str) -> Result<Option<ansi_term::Color>, String> {
     match t {
         "n" => {
             let k = num(rest)?;
-            named.get(k).copied().map(Some).ok_or_else(|| format!("bad named colour {s}"))
+            named
+                .get(k)
+                .copied()
+                .map(Some)
+                .ok_or_else(|| format!("bad named colour {s}"))
         }
         "f" => Ok(Some(Fixed(rest.parse::<u8>().map_err(|e| e.to_string())?))),
         "r" => {
@@ -87,7 +93,11 @@ pub fn enc_style(s: &ansi_term::Style) -> String {
     .iter()
     .map(|b| f(*b))
     .collect();
-    format!("{flags},{},{}", enc_colour(s.foreground), enc_colour(s.background))
+    format!(
+        "{flags},{},{}",
+        enc_colour(s.foreground),
+        enc_colour(s.background)
+    )
 }
 
 pub fn dec_style(s: &str) -> Result<ansi_term::Style, String> {
@@ -120,7 +130,10 @@ fn delta_style(s: &str) -> Result<Style, String> {
 pub fn handle(op: &str, args: &[&str]) -> Result<String, String> {
     if op == "cfg_env" {
         // ansi.cfg_env <xarg>*: like `cfg`, but with the process environment (DeltaEnv::init())
-        let a = args.iter().map(|f| unhex(f)).collect::<Result<Vec<_>, _>>()?;
+        let a = args
+            .iter()
+            .map(|f| unhex(f))
+            .collect::<Result<Vec<_>, _>>()?;
         let cfg = make_env_config(&a);
         ENV_CONFIG.with(|c| *c.borrow_mut() = Some(cfg));
         return Ok("ok".into());
@@ -147,7 +160,12 @@ pub fn handle(op: &str, args: &[&str]) -> Result<String, String> {
             let fill = if num(fill)? == 1 { Some(' ') } else { None };
             Ok(format!(
                 "ok {}",
-                hex(&ansi::verif_truncate_str_impl(&unhex(s)?, num(w)?, &unhex(tail)?, fill))
+                hex(&ansi::verif_truncate_str_impl(
+                    &unhex(s)?,
+                    num(w)?,
+                    &unhex(tail)?,
+                    fill
+                ))
             ))
         }
         ("parse_style_sections", [s]) => {
@@ -176,15 +194,24 @@ pub fn handle(op: &str, args: &[&str]) -> Result<String, String> {
         }
         // ansi.has_style_other_than <s> <style>* : style::line_has_style_other_than
         ("has_style_other_than", [s, styles @ ..]) => {
-            let styles: Vec<Style> = styles.iter().map(|x| delta_style(x)).collect::<Result<_, _>>()?;
-            Ok(format!("ok {}", style::line_has_style_other_than(&unhex(s)?, &styles) as u8))
+            let styles: Vec<Style> = styles
+                .iter()
+                .map(|x| delta_style(x))
+                .collect::<Result<_, _>>()?;
+            Ok(format!(
+                "ok {}",
+                style::line_has_style_other_than(&unhex(s)?, &styles) as u8
+            ))
         }
         ("style_equality", [a, b]) => Ok(format!(
             "ok {}",
             style::ansi_term_style_equality(dec_style(a)?, dec_style(b)?) as u8
         )),
         // ansi.paint <style> <text>: ansi_term rendering of one styled string
-        ("paint", [st, t]) => Ok(format!("ok {}", hex(&dec_style(st)?.paint(unhex(t)?).to_string()))),
+        ("paint", [st, t]) => Ok(format!(
+            "ok {}",
+            hex(&dec_style(st)?.paint(unhex(t)?).to_string())
+        )),
         ("slice", [s, start]) => Ok(format!(
             "ok {}",
             hex(&ansi::ansi_preserving_slice(&unhex(s)?, num(start)?))
@@ -210,10 +237,12 @@ pub fn handle(op: &str, args: &[&str]) -> Result<String, String> {
         // ansi.format_commit_line <line>   (uses current cfg)
         ("format_commit_line", [line]) => Ok(format!(
             "ok {}",
-            hex(&crate::features::hyperlinks::format_commit_line_with_osc8_commit_hyperlink(
-                &unhex(line)?,
-                config()
-            ))
+            hex(
+                &crate::features::hyperlinks::format_commit_line_with_osc8_commit_hyperlink(
+                    &unhex(line)?,
+                    config()
+                )
+            )
         )),
         // ansi.commit_hash_spans <line>: the matches of COMMIT_HASH_REGEX (the model's parameter)
         ("commit_hash_spans", [line]) => {
@@ -227,7 +256,10 @@ pub fn handle(op: &str, args: &[&str]) -> Result<String, String> {
         // ansi.osc8 <url> <text>
         ("osc8", [url, text]) => Ok(format!(
             "ok {}",
-            hex(&crate::features::hyperlinks::verif_format_osc8_hyperlink(&unhex(url)?, &unhex(text)?))
+            hex(&crate::features::hyperlinks::verif_format_osc8_hyperlink(
+                &unhex(url)?,
+                &unhex(text)?
+            ))
         )),
         // ansi.link_env: hostname, cwd of the delta process, cwd of the user's shell, relative_paths
         ("link_env", []) => {
@@ -238,7 +270,10 @@ pub fn handle(op: &str, args: &[&str]) -> Result<String, String> {
             };
             Ok(format!(
                 "ok {} {} {} {} {}",
-                c.hostname.as_ref().map(|h| hex(h)).unwrap_or_else(|| "-".into()),
+                c.hostname
+                    .as_ref()
+                    .map(|h| hex(h))
+                    .unwrap_or_else(|| "-".into()),
                 p(&c.cwd_of_delta_process),
                 p(&c.cwd_of_user_shell_process),
                 c.relative_paths as u8,
@@ -257,42 +292,54 @@ pub fn handle(op: &str, args: &[&str]) -> Result<String, String> {
             };
             Ok(format!(
                 "ok {}",
-                hex(&crate::handlers::diff_header::get_file_change_description_from_file_paths(
-                    &unhex(minus)?,
-                    &unhex(plus)?,
-                    false,
-                    &ev(me)?,
-                    &ev(pe)?,
-                    config()
-                ))
+                hex(
+                    &crate::handlers::diff_header::get_file_change_description_from_file_paths(
+                        &unhex(minus)?,
+                        &unhex(plus)?,
+                        false,
+                        &ev(me)?,
+                        &ev(pe)?,
+                        config()
+                    )
+                )
             ))
         }
         // ansi.absolute_path <relative path>   (uses current cfg and the process cwd)
-        ("absolute_path", [p]) => {
-            Ok(match crate::utils::path::absolute_path(&unhex(p)?, config()) {
+        ("absolute_path", [p]) => Ok(
+            match crate::utils::path::absolute_path(&unhex(p)?, config()) {
                 Some(p) => format!("ok {}", hex(&p.to_string_lossy())),
                 None => "ok none".to_string(),
-            })
-        }
+            },
+        ),
         // ansi.format_line_number <n | -> <width> <plus_file | -> <hyperlinks 0/1 is in cfg>
         ("format_line_number", [n, width, file]) => {
             let n = if *n == "-" { None } else { Some(num(n)?) };
-            let file = if *file == "-" { None } else { Some(unhex(file)?) };
+            let file = if *file == "-" {
+                None
+            } else {
+                Some(unhex(file)?)
+            };
             Ok(format!(
                 "ok {}",
-                hex(&crate::features::line_numbers::verif_ansi_format_line_number(
-                    n,
-                    num(width)?,
-                    file.as_deref(),
-                    config()
-                ))
+                hex(
+                    &crate::features::line_numbers::verif_ansi_format_line_number(
+                        n,
+                        num(width)?,
+                        file.as_deref(),
+                        config()
+                    )
+                )
             ))
         }
         // ansi.file_path_with_line_number <n | -> <file> <pad 0/1> <sep> <term 0/1> <fstyle | -> <nstyle | ->
         ("file_path_with_line_number", [n, file, pad, sep, term, fstyle, nstyle]) => {
             let n = if *n == "-" { None } else { Some(num(n)?) };
             let st = |x: &str| -> Result<Option<Style>, String> {
-                if x == "-" { Ok(None) } else { Ok(Some(delta_style(x)?)) }
+                if x == "-" {
+                    Ok(None)
+                } else {
+                    Ok(Some(delta_style(x)?))
+                }
             };
             Ok(format!(
                 "ok {}",
@@ -309,16 +356,16 @@ pub fn handle(op: &str, args: &[&str]) -> Result<String, String> {
             ))
         }
         // ansi.diff_stat_line <line> <cwd relative to repo root>
-        ("diff_stat_line", [line, cwd]) => {
-            Ok(match crate::handlers::diff_stat::relativize_path_in_diff_stat_line(
+        ("diff_stat_line", [line, cwd]) => Ok(
+            match crate::handlers::diff_stat::relativize_path_in_diff_stat_line(
                 &unhex(line)?,
                 &unhex(cwd)?,
                 config(),
             ) {
                 Some(s) => format!("ok {}", hex(&s)),
                 None => "ok none".to_string(),
-            })
-        }
+            },
+        ),
         _ => Err(format!("unknown op or arity: ansi.{op}")),
     }
 }
